@@ -606,3 +606,10 @@ func headerConst(p *core.Prog, info *types.Info, e ast.Expr) string {
 	}
 	return out
 }
+
+// printSrc renders a node as source text (single line, comments dropped).
+func printSrc(b *strings.Builder, n ast.Node) {
+	var buf bytes.Buffer
+	printer.Fprint(&buf, token.NewFileSet(), n)
+	b.WriteString(buf.String())
+}
